@@ -268,6 +268,9 @@ fn call(c: &Case) -> Option<bool> {
                 Err(_) => Some(false),
                 Ok(p) => {
                     let _ = p.to_string();
+                    if !pw_cost_bounded(s) {
+                        return Some(false); // parsing and re-encoding only: Argon2 is never run on unbounded costs
+                    }
                     Some(p.verify(&k.password).is_ok())
                 }
             }
@@ -347,7 +350,7 @@ pub fn pw_cost_bounded(s: &str) -> bool {
 }
 
 pub fn exec(c: &Case) -> Result<Option<bool>, String> {
-    if matches!(c.entry, Entry::PwStrVerify | Entry::PwFromStringVerify) {
+    if matches!(c.entry, Entry::PwStrVerify) {
         if let Ok(s) = std::str::from_utf8(&c.input) {
             if !pw_cost_bounded(s) {
                 return Ok(None);
